@@ -439,3 +439,119 @@ def fitness_transparent(u: Unit):
         from pyvc.engine import exc_subclass
         u.oblige(p, "notes.fitness_adds_a_note", z3.Implies(exc_subclass(e.t, z3.StringVal("Exception")), zb(len(notes) >= 1)) if e is not None else False, {}, lambda w: WAIT_REPLAY)
     u.cover("calib.fitness.cover_failure", [1] * n_raise, lambda _: True)
+
+
+# ---- run_mode: one run of the given mode on a processor of the given detector and pipeline; its result and its failure pass through --------
+DISPATCH_REPLAY = lambda w: {"code": """
+import warnings, numpy as np, verif_probes as VP, pyxel
+from pyxel.exposure import Exposure, Readout
+from pyxel.observation import Observation, ParameterValues
+from pyxel.pipelines import DetectionPipeline, ModelFunction
+warnings.simplefilter('ignore')
+VIOLATED, DETAIL = False, 'run_mode runs the given mode once on the given detector and pipeline, with the given flags, and hands back its result'
+pipe = DetectionPipeline(photon_collection=[ModelFunction(func='verif_probes.writer', name='w', arguments={'photon': 3.0, 'pixel_add': 2.0})])
+for wic in (False, True):
+    for debug in (False, True):
+        VP.LOG.clear()
+        dt = pyxel.run_mode(mode=Exposure(readout=Readout(times=[1.0, 2.0])), detector=VP.detector(), pipeline=pipe, debug=debug, with_inherited_coords=wic)
+        node = dt['/bucket'] if wic else dt
+        if len(VP.LOG) != 2 or float(np.asarray(node['photon'].values).ravel()[0]) != 3.0 or ('intermediate' in [g.strip('/') for g in dt.groups]) != debug:
+            VIOLATED, DETAIL = True, f'exposure (inherited coords {wic}, debug {debug}): {len(VP.LOG)} model calls, groups {dt.groups}'; break
+    if VIOLATED: break
+if not VIOLATED:
+    obs = Observation(parameters=[ParameterValues(key='pipeline.photon_collection.w.arguments.photon', values=[1.0, 2.0])], readout=Readout(times=[1.0]))
+    for bad in (dict(debug=True),):
+        try:
+            pyxel.run_mode(mode=obs, detector=VP.detector(), pipeline=pipe, **bad); VIOLATED, DETAIL = True, 'debug accepted for an observation'
+        except NotImplementedError:
+            pass
+    VP.LOG.clear()
+    dt = pyxel.run_mode(mode=obs, detector=VP.detector(), pipeline=pipe, override_dct={'pipeline.photon_collection.w.arguments.pixel_add': 7.0})
+    if len(VP.LOG) != 2 or any(x['kwargs'].get('pixel_add') != 7.0 for x in VP.LOG):
+        VIOLATED, DETAIL = True, f'observation with an override: calls {[(x["kwargs"]) for x in VP.LOG]}'
+""", "expect": "run_mode: given detector / pipeline / flags / overrides reach the run; the run's result comes back"}
+
+
+@unit("C09", "run_mode.dispatch")
+def run_mode_dispatch(u: Unit):
+    """run_mode for an Exposure, an Observation (with and without dask) and a Calibration, debug and layout flags and the presence of
+    outputs / overrides arbitrary: debug with a mode other than Exposure is refused before anything is built; otherwise ONE processor is
+    built from the given detector and pipeline (the observation registered on it), overrides are applied to it before the run, the
+    output folder is created before the run when outputs are configured, the mode's own run method is called exactly once with that
+    processor and the given flags (the hierarchical layout forced for a dask observation), its result is returned as it is (C03) and an
+    exception it raises leaves run_mode as the same object (C09)."""
+    fi = u.fn("pyxel/run.py::run_mode")
+    for q in ("_run_exposure_mode", "_run_calibration_mode"):
+        u.fn(f"pyxel/run.py::{q}")
+    EXQ, OBQ, CAQ, PRQ = "pyxel/exposure/exposure.py::Exposure", "pyxel/observation/observation.py::Observation", "pyxel/calibration/calibration.py::Calibration", "pyxel/pipelines/processor.py::Processor"
+    for kind, cq, runq in (("exposure", EXQ, "run_exposure"), ("observation", OBQ, "run_pipelines"), ("calibration", CAQ, "run_calibration")):
+        mci = u.cls(cq)
+        cfg = Cfg("real")
+        boundary.install(cfg)
+        rec = u.track({})
+
+        def run(ex, args, kwargs, fr, rec=rec, kind=kind):
+            rec.setdefault("runs", []).append((args[0], dict(kwargs), list(args[1:]), len(rec.get("order", []))))
+            rec.setdefault("order", []).append("run")
+            if ex.st.choose([True, True]) == 1:
+                e = VSym("exc", ex.st.fresh_int("run_exc"))
+                rec["exc"] = e
+                raise PyExc(e)
+            r = VOpaque("xr", None, {"label": "result of the run"})
+            rec["result"] = r
+            return r
+        cfg.contracts[f"{cq}.{runq}"] = Contract(f"{cq}.{runq}", run, "the running mode's own run (C02/C05/C11)")
+        cfg.contracts[f"{PRQ}.__init__"] = Contract(f"{PRQ}.__init__", lambda ex, args, kwargs, fr, rec=rec: (rec.setdefault("procs", []).append((args[0], dict(kwargs), list(args[1:]))), rec.setdefault("order", []).append("processor"), NONE)[2], "Processor(detector, pipeline[, observation_mode])")
+        aq = "pyxel/run.py::apply_overrides"
+        cfg.contracts[aq] = Contract(aq, lambda ex, args, kwargs, fr, rec=rec: (rec.setdefault("overrides", []).append(dict(kwargs)), rec.setdefault("order", []).append("overrides"), NONE)[2], "C08.overrides")
+
+        def out_attr(ex, obj, name, fr):
+            return VLib("outputs." + name, obj) if name == "create_output_folder" else VOpaque("xr", None, {"label": "outputs." + name, "truthy": True})
+        cfg.lib_overrides[("opaque_attr", "outputs")] = out_attr
+        cfg.lib_overrides["outputs.create_output_folder"] = lambda ex, f, args, kwargs, fr, rec=rec: (rec.setdefault("order", []).append("folder"), NONE)[1]
+        cfg.lib_overrides[("truth", "outputs")] = lambda ex, v: True
+
+        def setup(ex, kind=kind, rec=rec):
+            rec.clear()
+            h = ex.hold = {k: VOpaque("xr", None, {"label": k, "truthy": True}) for k in ("detector", "pipeline", "override_dct")}
+            has_out = ex.st.choose([True, True]) == 0
+            fields = {"outputs": VOpaque("outputs", None, {}) if has_out else NONE, "with_dask": VBool(z3.Bool("with_dask"))}
+            mode = ex.st.alloc(HObj(mci, fields))
+            has_ovr = ex.st.choose([True, True]) == 0
+            h.update(mode=mode, has_out=has_out, has_ovr=has_ovr)
+            return [], {"mode": mode, "detector": h["detector"], "pipeline": h["pipeline"], "override_dct": h["override_dct"] if has_ovr else NONE,
+                        "debug": VBool(z3.Bool("debug")), "with_inherited_coords": VBool(z3.Bool("inherited"))}
+        ps = u.paths(fi, setup, cfg, label=f"run_mode[{kind}]")
+        dbg, inh, dask_ = z3.Bool("debug"), z3.Bool("inherited"), z3.Bool("with_dask")
+        for p in ps:
+            h = p.ex.hold
+            runs, procs, order = rec.get("runs", []), rec.get("procs", []), rec.get("order", [])
+            if p.kind == "raise" and not runs:
+                u.oblige(p, f"run_mode.dispatch[{kind}].refused_only_for_debug", z3.And(zb(p.exc_name() == "NotImplementedError" and not procs and kind != "exposure"), dbg), {"exc": p.exc_name()}, DISPATCH_REPLAY)
+                continue
+            ok = len(runs) == 1 and len(procs) == 1
+            proc_ok = ok and procs[0][1].get("detector") is h["detector"] and procs[0][1].get("pipeline") is h["pipeline"] and not procs[0][2] \
+                and ((procs[0][1].get("observation_mode") is not None and isinstance(procs[0][1]["observation_mode"], VRef) and procs[0][1]["observation_mode"].addr == h["mode"].addr) if kind == "observation" else "observation_mode" not in procs[0][1])
+            run_ok = ok and isinstance(runs[0][0], VRef) and runs[0][0].addr == h["mode"].addr and isinstance(runs[0][1].get("processor"), VRef) and runs[0][1]["processor"].addr == procs[0][0].addr and not runs[0][2]
+            seq_ok = ok and order.index("processor") < order.index("run") and (("overrides" in order and order.index("processor") < order.index("overrides") < order.index("run") and
+                                                                              rec["overrides"][0].get("overrides") is h["override_dct"] and rec["overrides"][0].get("processor").addr == procs[0][0].addr)
+                                                                             if h["has_ovr"] else "overrides" not in order) \
+                and (("folder" in order and order.index("folder") < order.index("run")) if h["has_out"] else "folder" not in order)
+            u.oblige(p, f"run_mode.dispatch[{kind}].one_run_on_the_given_parts", bool(proc_ok and run_ok), {"runs": len(runs), "processors": len(procs)}, DISPATCH_REPLAY)
+            u.oblige(p, f"run_mode.dispatch[{kind}].overrides_and_folder_before_the_run", bool(seq_ok), {"order": str(order)}, DISPATCH_REPLAY)
+            if ok:
+                kw = runs[0][1]
+                wic = kw.get("with_inherited_coords")
+                flags = [z_bool(wic.v) == (z3.Or(inh, dask_) if kind == "observation" else inh) if isinstance(wic, VBool) else z3.BoolVal(False)]
+                if kind == "exposure":
+                    flags.append(z_bool(kw["debug"].v) == dbg if isinstance(kw.get("debug"), VBool) else z3.BoolVal(False))
+                else:
+                    flags.append(z3.Not(dbg))
+                u.oblige(p, f"run_mode.dispatch[{kind}].flags_as_given", z3.And(*flags), {}, DISPATCH_REPLAY)
+            if p.kind == "return":
+                u.oblige(p, f"run_mode.dispatch[{kind}].result_returned_as_it_is", p.value is rec.get("result"), {}, DISPATCH_REPLAY)
+            else:
+                e = rec.get("exc")
+                u.oblige(p, f"run_mode.dispatch[{kind}].failure_passes_through", bool(isinstance(p.value, VSym) and e is not None and z3.eq(p.value.t, e.t)), {"exc": p.exc_name()}, DISPATCH_REPLAY)
+        u.cover(f"run_mode.dispatch.cover[{kind}]", ps, lambda p: p.kind == "return")
+        u.cover(f"run_mode.dispatch.cover_failure[{kind}]", ps, lambda p: p.kind == "raise" and bool(rec.get("runs")))
